@@ -479,6 +479,25 @@ func c08Offline(r *gen.Rng, o *out.W) {
 		}
 		for w.Release(a) {
 		}
+		if r.Intn(3) == 0 {
+			// a resume that is cut while the CONNACK or the first retransmissions are being written; more traffic
+			// while the client is offline again; the next resume gets all of it
+			c := w.Conn()
+			po, pn := w.peers[b], w.peers[c]
+			pn.unacked = po.unacked
+			pn.open2 = append(append([]packet.ID{}, po.released2...), po.open2...)
+			w.FailSend(c, 1+r.Intn(2))
+			w.Connect(c, po.clientID, false, po.will, 0, "", "")
+			if w.alive(c) {
+				w.Drop(c)
+			}
+			b = c
+			for i, k := 0, 1+r.Intn(3); i < k; i++ {
+				w.Publish(a, []string{"x/1", "y"}[r.Intn(2)], packet.QOS(1+r.Intn(2)), false, false)
+				for w.Release(a) {
+				}
+			}
+		}
 		b = w.Reconnect(b, r.Intn(6) == 0)
 		if r.Intn(3) == 0 {
 			// lose the connection again in the middle of the resend / delivery
@@ -1336,6 +1355,33 @@ func c14SlowSubscriber(r *gen.Rng, o *out.W) {
 	o.Sample(fmt.Sprintf("slow subscriber blocks a publisher, queue %d, %d lines", q, len(w.trace)))
 }
 
+// a long stream towards a subscriber whose queue is small (C16): the publisher has to wait inside the backend for
+// room again and again, the subscriber acknowledges promptly — everything arrives, nothing stalls.  (A publish waiting
+// on another online client's queue is outside the model's envelope: monitors and watchdog judge.)
+func c16SmallQueue(r *gen.Rng, o *out.W) {
+	q := 2 + r.Intn(4)
+	win := 1 + r.Intn(3)
+	w := newWorld(o, "C16", win, q, nil)
+	s := w.Conn()
+	w.Connect(s, "S", r.Bool(), nil, 0, "", "")
+	w.Subscribe(s, packet.Subscription{Topic: "x/#", QOS: packet.QOS(1 + r.Intn(2))})
+	w.mustSurvive[s] = true
+	p := w.Conn()
+	w.Connect(p, "P", true, nil, 0, "", "")
+	w.mustSurvive[p] = true
+	for i, n := 0, q+win+3+r.Intn(6); i < n; i++ {
+		w.Publish(p, "x/y", 1, false, false)
+		if r.Intn(3) == 0 {
+			w.AckOne(s, 0)
+		}
+	}
+	w.AckAll(s)
+	w.Send(p, &packet.Pingreq{})
+	w.finish()
+	o.Distinct(fmt.Sprintf("small queue q=%d win=%d", q, win))
+	o.Sample(fmt.Sprintf("long stream into a queue of %d, window %d, %d lines", q, win, len(w.trace)))
+}
+
 // the backend fails right after the client was accepted (C20): Restore returns an error when the CONNACK has already
 // been sent — the connection is closed, and never gets a second CONNACK.  Monitors only (the model has no failing
 // backend calls).
@@ -1672,6 +1718,11 @@ func TestHarness(t *testing.T) {
 		rs("C16 window", func() profile {
 			return profile{window: 1 + r.Intn(4), queue: 100, clients: 2, steps: 40 + r.Intn(60), wSub: 2, wPub: 14, wAck: 9, wDrop: 1, wRecon: 2, wIdle: 1, qos: all}
 		})
+		if *fShard < 4 {
+			for i := 0; i < 4; i++ {
+				runCase(t, o, "C16 small queue", func() { c16SmallQueue(r, o) })
+			}
+		}
 	case "C20":
 		sc("C20 request/response", c20Script)
 		sc("C20 long runs", c20Long)
